@@ -378,7 +378,21 @@ pub fn m<T: Text + ?Sized>(r: &R, cx: &Ctx, t: &T, i: usize, st: &St, k: K<'_>) 
             k(j, &s2)
         }),
         R::Look(c, la) => match la {
-            LookAround::LookAhead => m(c, cx, t, i, st, &mut |_j, s: &St| k(i, s)),
+            LookAround::LookAhead => {
+                // look-arounds are atomic (Perl/Oniguruma): the first way the body matches
+                let mut first: Option<St> = None;
+                m(c, cx, t, i, st, &mut |_j, s: &St| {
+                    first = Some(s.clone());
+                    true
+                });
+                if cx.aborted.get() {
+                    return false;
+                }
+                match first {
+                    Some(s) => k(i, &s),
+                    None => false,
+                }
+            }
             LookAround::LookAheadNeg => {
                 let found = m(c, cx, t, i, st, &mut |_j, _s: &St| true);
                 if cx.aborted.get() {
@@ -414,8 +428,23 @@ pub fn m<T: Text + ?Sized>(r: &R, cx: &Ctx, t: &T, i: usize, st: &St, k: K<'_>) 
                         if cx.aborted.get() || found {
                             return false;
                         }
-                    } else if m(a, cx, t, start, st, &mut |j, s: &St| j == i && k(i, s)) {
-                        return true;
+                    } else {
+                        // atomic: the first alternative (and the first way) that ends at i
+                        let mut first: Option<St> = None;
+                        m(a, cx, t, start, st, &mut |j, s: &St| {
+                            if j == i {
+                                first = Some(s.clone());
+                                true
+                            } else {
+                                false
+                            }
+                        });
+                        if cx.aborted.get() {
+                            return false;
+                        }
+                        if let Some(s) = first {
+                            return k(i, &s);
+                        }
                     }
                 }
                 if neg {
@@ -571,9 +600,14 @@ pub fn search<T: Text + ?Sized>(p: &RProg, t: &T, pos: usize, skipped: bool, ste
         if found {
             let (end, s) = res.unwrap();
             let mut caps = s.caps.clone();
+            // \K sets the reported start; it is capped to <= end and to >= the offset the
+            // search started from (a search from pos never reports a match before pos)
             let mut st = s.keep.unwrap_or(start);
             if st > end {
                 st = end;
+            }
+            if st < pos {
+                st = pos;
             }
             caps[0] = Some((st, end));
             return SearchResult { outcome: Outcome::Match(caps), steps: cx.steps.get() };
